@@ -12,8 +12,7 @@ from .loader import AnalysisError, walk_own
 
 # library exception classes the package names through attribute chains (last component) -> builtin parent
 KNOWN_LIB_EXC = {'Empty': 'Exception', 'Full': 'Exception', 'ClientError': 'Exception'}
-ALWAYS = ['BaseException', 'Exception', 'GeneratorExit', 'AssertionError', 'TypeError', 'KeyError', 'OSError',
-          'RuntimeError', 'AttributeError']
+ALWAYS = ['BaseException', 'Exception']
 
 
 def last_name(e):
@@ -27,21 +26,19 @@ def last_name(e):
 
 
 class ExcModel(object):
-    def __init__(self, repo):
+    def __init__(self, repo, scope=None, extra_names=()):
+        """scope: predicate over FuncInfo selecting the functions whose handlers define the partition
+        (None = whole package). Classes named only in `raise` statements fall into the atom of their nearest
+        handler-named ancestor."""
         self.repo = repo
-        names = set(ALWAYS)
+        names = set(ALWAYS) | set(extra_names)
         for f in repo.all_functions():
+            if scope is not None and not scope(f):
+                continue
             for n in walk_own(f.node):
                 if isinstance(n, ast.ExceptHandler) and n.type is not None:
                     for t in (n.type.elts if isinstance(n.type, ast.Tuple) else [n.type]):
                         names.add(last_name(t))
-                elif isinstance(n, ast.Raise) and n.exc is not None:
-                    nm = last_name(n.exc)
-                    if nm and self._is_exception_class(nm):
-                        names.add(nm)
-        for c in repo.all_classes():
-            if self._is_exception_class(c.name):
-                names.add(c.name)
         names.discard(None)
         self.parents = {}
         for nm in sorted(names):
@@ -125,12 +122,21 @@ class ExcModel(object):
     def atom_of(self, cls_name):
         if cls_name in self.parents:
             return cls_name
-        # un-named class: falls into the atom of its nearest named ancestor
-        bo = getattr(builtins, cls_name, None)
-        if isinstance(bo, type) and issubclass(bo, BaseException):
-            for k in bo.__mro__:
-                if k.__name__ in self.parents:
-                    return k.__name__
+        # un-named class: falls into the atom of its nearest named ancestor (breadth-first over the bases)
+        seen, level = set(), [cls_name]
+        while level:
+            nxt = []
+            for k in level:
+                if k in seen:
+                    continue
+                seen.add(k)
+                if k in self.parents:
+                    return k
+                try:
+                    nxt.extend(self._parents(k))
+                except AnalysisError:
+                    pass
+            level = nxt
         raise AnalysisError('cannot place exception class %s' % cls_name)
 
     @property
